@@ -633,14 +633,18 @@ package ast
 //@   ensures[both-exhausted] old(curPos[cursor.fst]) >= curLen[cursor.fst] && old(curPos[cursor.snd]) >= curLen[cursor.snd] ==> cursor.current == nil && curPos[cursor.fst] == old(curPos[cursor.fst]) && curPos[cursor.snd] == old(curPos[cursor.snd])
 //@   ensures[only-snd] old(curPos[cursor.fst]) >= curLen[cursor.fst] && old(curPos[cursor.snd]) < curLen[cursor.snd] ==> str(cursor.current) == curSeq[cursor.snd][old(curPos[cursor.snd])] && cursor.current != nil && curPos[cursor.snd] == old(curPos[cursor.snd]) + 1 && curPos[cursor.fst] == old(curPos[cursor.fst])
 //@   ensures[only-fst] old(curPos[cursor.fst]) < curLen[cursor.fst] && old(curPos[cursor.snd]) >= curLen[cursor.snd] ==> str(cursor.current) == curSeq[cursor.fst][old(curPos[cursor.fst])] && cursor.current != nil && curPos[cursor.fst] == old(curPos[cursor.fst]) + 1 && curPos[cursor.snd] == old(curPos[cursor.snd])
-//@   ensures[equal-heads] old(curPos[cursor.fst]) < curLen[cursor.fst] && old(curPos[cursor.snd]) < curLen[cursor.snd] && curSeq[cursor.fst][old(curPos[cursor.fst])] == curSeq[cursor.snd][old(curPos[cursor.snd])] ==> str(cursor.current) == curSeq[cursor.fst][old(curPos[cursor.fst])] && curPos[cursor.fst] == old(curPos[cursor.fst]) + 1 && curPos[cursor.snd] == old(curPos[cursor.snd]) + 1
-//@   ensures[fst-first] old(curPos[cursor.fst]) < curLen[cursor.fst] && old(curPos[cursor.snd]) < curLen[cursor.snd] && before(!cursor.forward, curSeq[cursor.fst][old(curPos[cursor.fst])], curSeq[cursor.snd][old(curPos[cursor.snd])]) ==> str(cursor.current) == curSeq[cursor.fst][old(curPos[cursor.fst])] && curPos[cursor.fst] == old(curPos[cursor.fst]) + 1 && curPos[cursor.snd] == old(curPos[cursor.snd])
-//@   ensures[snd-first] old(curPos[cursor.fst]) < curLen[cursor.fst] && old(curPos[cursor.snd]) < curLen[cursor.snd] && before(!cursor.forward, curSeq[cursor.snd][old(curPos[cursor.snd])], curSeq[cursor.fst][old(curPos[cursor.fst])]) ==> str(cursor.current) == curSeq[cursor.snd][old(curPos[cursor.snd])] && curPos[cursor.snd] == old(curPos[cursor.snd]) + 1 && curPos[cursor.fst] == old(curPos[cursor.fst])
+//@   ensures[equal-heads] old(curPos[cursor.fst]) < curLen[cursor.fst] && old(curPos[cursor.snd]) < curLen[cursor.snd] && curSeq[cursor.fst][old(curPos[cursor.fst])] == curSeq[cursor.snd][old(curPos[cursor.snd])] ==> cursor.current != nil && str(cursor.current) == curSeq[cursor.fst][old(curPos[cursor.fst])] && curPos[cursor.fst] == old(curPos[cursor.fst]) + 1 && curPos[cursor.snd] == old(curPos[cursor.snd]) + 1
+//@   ensures[fst-first] old(curPos[cursor.fst]) < curLen[cursor.fst] && old(curPos[cursor.snd]) < curLen[cursor.snd] && before(!cursor.forward, curSeq[cursor.fst][old(curPos[cursor.fst])], curSeq[cursor.snd][old(curPos[cursor.snd])]) ==> cursor.current != nil && str(cursor.current) == curSeq[cursor.fst][old(curPos[cursor.fst])] && curPos[cursor.fst] == old(curPos[cursor.fst]) + 1 && curPos[cursor.snd] == old(curPos[cursor.snd])
+//@   ensures[snd-first] old(curPos[cursor.fst]) < curLen[cursor.fst] && old(curPos[cursor.snd]) < curLen[cursor.snd] && before(!cursor.forward, curSeq[cursor.snd][old(curPos[cursor.snd])], curSeq[cursor.fst][old(curPos[cursor.fst])]) ==> cursor.current != nil && str(cursor.current) == curSeq[cursor.snd][old(curPos[cursor.snd])] && curPos[cursor.snd] == old(curPos[cursor.snd]) + 1 && curPos[cursor.fst] == old(curPos[cursor.fst])
 //@ func NewUnionSetCursor
 //@   props C14 C10
 //@   requires fst != nil && snd != nil && ref(fst) != ref(snd) && 0 <= curPos[fst] && curPos[fst] <= curLen[fst] && 0 <= curPos[snd] && curPos[snd] <= curLen[snd]
 //@   modifies curPos[fst], curPos[snd]
 //@   ensures result != nil && istype(result, *unionSetCursor)
+//@   ensures[wraps-the-two-inputs-in-the-given-direction] as(result, *unionSetCursor).fst == fst && as(result, *unionSetCursor).snd == snd && as(result, *unionSetCursor).forward == forward
+//@   ensures[starts-after-one-merge-step] (old(curPos[fst]) < curLen[fst] || old(curPos[snd]) < curLen[snd]) ==> as(result, *unionSetCursor).current != nil && curPos[fst] + curPos[snd] > old(curPos[fst]) + old(curPos[snd])
+//@   ensures[empty-inputs-give-an-invalid-cursor] old(curPos[fst]) >= curLen[fst] && old(curPos[snd]) >= curLen[snd] ==> as(result, *unionSetCursor).current == nil
+//@   ensures[first-element-is-the-only-valid-head] old(curPos[fst]) >= curLen[fst] && old(curPos[snd]) < curLen[snd] ==> str(as(result, *unionSetCursor).current) == curSeq[snd][old(curPos[snd])]
 
 // treeCursor: in-order walk of an llrb tree with an explicit stack (safety only; the enumeration order is covered
 // by a bounded stand-in). TreeSet inserts only byteArrayComparable / reverseByteArrayComparable values.
